@@ -124,6 +124,9 @@ func (tr *fnTrans) queryText2(o *Obligation, wantModel bool, relaxed bool) strin
 		if it.needs != "" && !declared[it.needs] {
 			continue
 		}
+		if o.onlyBlk != nil && it.isHyp && it.blk >= 0 && !o.onlyBlk[it.blk] {
+			continue
+		}
 		if relaxed && it.isHyp && (strings.Contains(it.text, "(forall ") || strings.Contains(it.text, "(exists ")) {
 			continue
 		}
